@@ -553,7 +553,8 @@ func (db *Database) performFuzzySearch(query string, options SearchOptions) []Se
 		}
 
 		// Apply fuzzy threshold
-		if options.FuzzyThreshold > 0 && match.Score < options.FuzzyThreshold {
+		// (0 means "no threshold"; the CLI asks for a negative one, -30)
+		if options.FuzzyThreshold != 0 && match.Score < options.FuzzyThreshold {
 			continue
 		}
 
